@@ -7,6 +7,7 @@
 //! The worker never decides anything: it executes the real code and records.
 
 mod galloc;
+mod arith;
 mod dump;
 mod gen;
 mod parse;
@@ -83,7 +84,9 @@ fn worker() {
             "dumpbc" => dump::op_dumpbc(&req),
             "dumpir" => dump::op_dumpir(&req),
             "parse" => parse::op_parse(&req),
+            "render" => dump::op_render(&req),
             "sv" => sv::op_sv(&req),
+            "arith" => arith::op_arith(&req),
             "ping" => println!("{}", json!({"pong": 1, "debug": cfg!(debug_assertions)})),
             other => println!("{}", json!({"error": format!("unknown op {other}")})),
         }
